@@ -139,10 +139,25 @@ type server struct {
 	keyIdx []int
 	roles  []string // leaf | intermediate | root
 	cert   tls.Certificate
-	valid  bool // ordinary validation succeeds for the host names calls use
+	valid  bool // ordinary validation succeeds for the calls' own host names (c<call>.srv<n>.test)
+	// validShared: ordinary validation succeeds for the server's own host name
+	// (srv<n>.test)
+	validShared bool
 }
 
 func hostOf(call, srv int) string { return fmt.Sprintf("c%d.srv%d.test", call, srv) }
+
+// sharedHostOf is the host name of server srv that calls share.
+func sharedHostOf(srv int) string { return fmt.Sprintf("srv%d.test", srv) }
+
+// validFor reports whether ordinary certificate validation of sv succeeds for
+// the host name call c uses.
+func (sv *server) validFor(c *call) bool {
+	if c.act.Host == hostServer {
+		return sv.validShared
+	}
+	return sv.valid
+}
 
 func harnessRoot(rootKey int) (*x509.Certificate, error) {
 	return makeCert("pinsim harness root", rootKey, rootKey, nil, true, nil, false)
@@ -249,6 +264,13 @@ func buildServer(n int, spec ServerSpec, rootKey int, roots *x509.CertPool) (*se
 		CurrentTime:   time.Date(2000, 1, 1, 0, 0, 0, 0, time.UTC),
 	})
 	sv.valid = verr == nil
+	_, verr = leaf.Verify(x509.VerifyOptions{
+		DNSName:       sharedHostOf(n),
+		Roots:         roots,
+		Intermediates: inter,
+		CurrentTime:   time.Date(2000, 1, 1, 0, 0, 0, 0, time.UTC),
+	})
+	sv.validShared = verr == nil
 	return sv, nil
 }
 
